@@ -83,6 +83,24 @@ Proof.
   apply eqb_prop in H. subst hit. split; [apply oeqb_eq|]. intros ->. apply oeqb_refl.
 Qed.
 
+Lemma legal_reading : forall (val : N -> option N) l1 l2,
+  (forall tid k r, legal val (l1 ++ LGet tid k r :: l2) = true -> r = reg l1 k (val k)) /\
+  (forall tid l k v, legal val (l1 ++ LScan tid l :: l2) = true -> In (k, v) l -> reg l1 k (val k) = Some v) /\
+  (forall tid own ks, legal val (l1 ++ LEvict tid own ks :: l2) = true ->
+     ~ In own ks /\ forall g, In g ks -> reg l1 g (val g) <> None) /\
+  (forall tid k old v hit, legal val (l1 ++ LCas tid k old v hit :: l2) = true ->
+     (hit = true <-> reg l1 k (val k) = Some old)) /\
+  (forall tid k old hit, legal val (l1 ++ LCad tid k old hit :: l2) = true ->
+     (hit = true <-> reg l1 k (val k) = Some old)).
+Proof.
+  intros val l1 l2. split; [|split; [|split; [|split]]].
+  - intros tid k r. apply legal_get_latest.
+  - intros tid l k v. apply legal_scan_latest.
+  - intros tid own ks. apply legal_evict_own.
+  - intros tid k old v hit. apply legal_cas_identity.
+  - intros tid k old hit. apply legal_cad_identity.
+Qed.
+
 Section LinProofs.
   Variable mix : N -> N.
   Variable sidx : nat -> N -> nat.
